@@ -469,3 +469,51 @@ Proof.
       * split; [nia|]. intros _. rewrite <- Z.negb_odd, Od. reflexivity.
     + subst m. split; [nia|nia].
 Qed.
+
+(* ---------------- the exponent bracket exists for every Decimal, and the encoding decodes ---------------- *)
+Lemma spec_bracket num den F :
+  0 < num < 2 ^ 127 -> (den = 1 \/ 10 <= den <= 10 ^ 18) -> 23 <= F <= 52 ->
+  exists e0, 2 ^ F <= q_floor num den e0 < 2 ^ (F + 1) /\ - 113 <= e0 <= 126 - F.
+Proof.
+  intros Hnum Hden HF. destruct Hden as [-> | Hden].
+  - exists (Z.log2 num - F). split; [apply q_floor_int_bracket; lia|].
+    assert (Z.log2 num < 127) by (apply Z.log2_lt_pow2; lia). pose proof (Z.log2_nonneg num). lia.
+  - destruct (scaling_facts num den F Hnum Hden HF) as (Hla & Hlb & Hns & Hds & Hnd & Hnum' & Hden' & Hq).
+    set (la := Z.log2 num) in *. set (lb := Z.log2 den) in *.
+    set (ns := Z.max 0 (lb - la + (F + 3))) in *. set (ds := Z.max 0 (- (lb - la + (F + 3)))) in *.
+    set (num' := num * 2 ^ ns) in *. set (den' := den * 2 ^ ds) in *.
+    destruct (signif_facts (num' / den') F HF Hq) as (Hadj & H2G & H2adj & _ & Hsig).
+    set (adj := if Z.log2 (num' / den') + 1 =? F + 3 then 1 else 0) in *. clearbody adj.
+    set (G := 3 - adj) in *.
+    exists (la - lb - F - adj). split; [|lia].
+    assert (Ens : ns + (la - lb - F - adj) = ds + G) by (unfold G; lia).
+    rewrite (q_floor_shift num den (la - lb - F - adj) ns) by lia. rewrite Ens.
+    rewrite Z.pow_add_r, Z.mul_assoc by lia. fold num' den'.
+    rewrite <- Z.div_div by lia. exact Hsig.
+Qed.
+
+(* fields of an encoded normal number *)
+Lemma enc_fields W F B E (neg : bool) m e :
+  23 <= F <= 52 -> 8 <= E <= 11 -> W = 1 + E + F ->
+  2 ^ F <= m < 2 ^ (F + 1) -> 1 <= e + F + B <= 2 ^ E - 2 ->
+  let bits := (if neg then 2 ^ (W - 1) else 0) + (e + F + B) * 2 ^ F + (m - 2 ^ F) in
+  bits / 2 ^ (W - 1) = (if neg then 1 else 0) /\
+  (bits / 2 ^ F) mod 2 ^ E = e + F + B /\ bits mod 2 ^ F = m - 2 ^ F.
+Proof.
+  intros HF HE HW Hm He bits.
+  assert (HpF : 0 < 2 ^ F) by (apply Z.pow_pos_nonneg; lia).
+  assert (HpE : 0 < 2 ^ E) by (apply Z.pow_pos_nonneg; lia).
+  assert (EF1 : 2 ^ (F + 1) = 2 * 2 ^ F) by (rewrite Z.pow_add_r by lia; lia).
+  assert (EW : 2 ^ (W - 1) = 2 ^ E * 2 ^ F) by (rewrite <- Z.pow_add_r by lia; f_equal; lia).
+  set (S := if neg then 1 else 0). assert (HS : 0 <= S <= 1) by (unfold S; destruct neg; lia).
+  assert (Eb : bits = (S * 2 ^ E + (e + F + B)) * 2 ^ F + (m - 2 ^ F)).
+  { unfold bits, S. rewrite EW. destruct neg; ring. }
+  assert (Hlow : 0 <= m - 2 ^ F < 2 ^ F) by lia.
+  refine (conj _ (conj _ _)).
+  - rewrite Eb, EW. fold S.
+    replace ((S * 2 ^ E + (e + F + B)) * 2 ^ F + (m - 2 ^ F)) with (S * (2 ^ E * 2 ^ F) + ((e + F + B) * 2 ^ F + (m - 2 ^ F))) by ring.
+    rewrite Z.div_add_l by nia. rewrite Z.div_small by nia. lia.
+  - rewrite Eb. rewrite Z.div_add_l by lia. rewrite (Z.div_small (m - 2 ^ F)) by lia. rewrite Z.add_0_r.
+    rewrite Z.add_comm, Z.mod_add by lia. apply Z.mod_small. lia.
+  - rewrite Eb. rewrite Z.add_comm, Z.mod_add by lia. apply Z.mod_small. lia.
+Qed.
